@@ -76,6 +76,9 @@ func extCtx(c *Case) context.Context {
 }
 
 func extSetup(c *Case) vmrun.Setup {
+	if c.Core {
+		return func(e *env.Env) { core.Import(e) }
+	}
 	if len(c.Ext) == 0 || c.ExtInner {
 		return nil
 	}
@@ -93,6 +96,8 @@ type Case struct {
 	Ext []string `json:"ext"`
 	// the lookup sits on a scope NESTED in the host's (where the host also binds the names, to 50) and the script runs in that nested scope
 	ExtInner bool `json:"extinner"`
+	// the core builtins are imported into the run's environment
+	Core bool `json:"core"`
 	// the concurrent runs come BEFORE the sequential ones: whatever the interpreter builds on first use is then first used concurrently
 	ConcFirst bool `json:"concfirst"`
 	// environments that differ in what the type name "num" means: the same tree is run in each of them
@@ -332,7 +337,8 @@ func main() {
 			add(Mismatch{ID: c.ID, Kind: "machinery", What: "rendered program does not parse: " + perr.Error(), Src: src})
 			continue
 		}
-		if c.Src == "" {
+		// (C14 judges what RUNNING a tree does, whatever shape the parser gave it: the self-check of the renderer is then left to the checks that own the tree)
+		if c.Src == "" && os.Getenv("VERIF_TREECHECK") != "off" {
 			enc, eerr := astjson.EncodeStmts(stmt)
 			if eerr != nil {
 				add(Mismatch{ID: c.ID, Kind: "machinery", What: eerr.Error(), Src: src})
